@@ -191,6 +191,22 @@ func c05Pool(unitIDs map[string]uint64) []c05Val {
 		c05Val{coq: "VDateTime " + zlist(2020, 1, 1), env: &dtpb.DateTime{ValueUs: 1577836800000000, Precision: dtpb.DateTime_DAY, Timezone: "UTC"}, kind: "FHIR.dateTime"})
 	// times
 	add(c05Time(10, 30, 15, 250, 0), c05Time(10, 30, 15, 250, 1), c05Time(10, 30, 15, 250, 2), c05Time(10, 30, 15, 250, 3), c05Time(10, 30, 15, 0, 3), c05Time(10, 31, 0, 0, 1), c05Time(11, 0, 0, 0, 0), c05Time(9, 59, 59, 999, 3))
+	// time, dateTime and instant ELEMENTS at second, millisecond and microsecond precision (a literal cannot carry microseconds)
+	tm := func(h, mi, sec, us int64, pr dtpb.Time_Precision) *dtpb.Time {
+		return &dtpb.Time{ValueUs: ((h*60+mi)*60+sec)*1000000 + us, Precision: pr}
+	}
+	add(c05Val{coq: "VTime " + zlist(10, 30, 15000000000), env: tm(10, 30, 15, 0, dtpb.Time_SECOND), kind: "FHIR.time/s"},
+		c05Val{coq: "VTime " + zlist(10, 30, 15250000000), env: tm(10, 30, 15, 250000, dtpb.Time_MILLISECOND), kind: "FHIR.time/ms"},
+		c05Val{coq: "VTime " + zlist(10, 30, 15250400000), env: tm(10, 30, 15, 250400, dtpb.Time_MICROSECOND), kind: "FHIR.time/us"},
+		c05Val{coq: "VTime " + zlist(10, 30, 15000400000), env: tm(10, 30, 15, 400, dtpb.Time_MICROSECOND), kind: "FHIR.time/us"},
+		c05Val{coq: "VTime " + zlist(10, 30, 15000000000), env: tm(10, 30, 15, 0, dtpb.Time_MILLISECOND), kind: "FHIR.time/ms"})
+	const base = 1577874615000000 // 2020-01-01T10:30:15Z
+	add(c05Val{coq: "VDateTime " + zlist(2020, 1, 1, 10, 30, 15000400000), env: &dtpb.DateTime{ValueUs: base + 400, Precision: dtpb.DateTime_MICROSECOND, Timezone: "Z"}, kind: "FHIR.dateTime/us"},
+		c05Val{coq: "VDateTime " + zlist(2020, 1, 1, 10, 30, 15250400000), env: &dtpb.DateTime{ValueUs: base + 250400, Precision: dtpb.DateTime_MICROSECOND, Timezone: "+05:30"}, kind: "FHIR.dateTime/us"},
+		c05Val{coq: "VDateTime " + zlist(2020, 1, 1, 10, 30, 15250000000), env: &dtpb.DateTime{ValueUs: base + 250000, Precision: dtpb.DateTime_MILLISECOND, Timezone: "-11:00"}, kind: "FHIR.dateTime/ms"},
+		c05Val{coq: "VDateTime " + zlist(2020, 1, 1, 10, 30, 15000000000), env: &dtpb.Instant{ValueUs: base, Precision: dtpb.Instant_SECOND, Timezone: "Z"}, kind: "FHIR.instant/s"},
+		c05Val{coq: "VDateTime " + zlist(2020, 1, 1, 10, 30, 15250000000), env: &dtpb.Instant{ValueUs: base + 250000, Precision: dtpb.Instant_MILLISECOND, Timezone: "+05:30"}, kind: "FHIR.instant/ms"},
+		c05Val{coq: "VDateTime " + zlist(2020, 1, 1, 10, 30, 15000400000), env: &dtpb.Instant{ValueUs: base + 400, Precision: dtpb.Instant_MICROSECOND, Timezone: "Z"}, kind: "FHIR.instant/us"})
 	// quantities
 	for _, q := range []struct{ num, unit string }{{"1", "mg"}, {"1.0", "mg"}, {"2", "mg"}, {"1", "kg"}, {"1", "1"}, {"5", "day"}, {"5", "days"}, {"0.5", "mg"}} {
 		o := decOperand(q.num, "sysvar")
